@@ -29,6 +29,8 @@ impl Tier {
     }
 }
 
+pub const NONTRIVIAL_CAP: usize = 1_500_000;
+
 pub fn bytes_json(v: &[u8]) -> Value {
     if v.iter().all(|b| (0x20..0x7f).contains(b)) {
         json!(String::from_utf8_lossy(v))
@@ -97,8 +99,15 @@ impl Stats {
     pub fn transition(&mut self, from: u64, label: u64, to: u64) {
         self.transitions.insert(hash_of(&(from, label, to)));
     }
+    /// Distinct non-trivial cases are counted with a hash set; beyond `NONTRIVIAL_CAP` entries
+    /// per worker the set stops growing (memory) and the surplus is only tallied, so the
+    /// reported `distinct_nontrivial` is then a lower bound (the evidence says so).
     pub fn nontrivial<T: Hash>(&mut self, t: &T) {
-        self.nontrivial.insert(hash_of(t));
+        if self.nontrivial.len() < NONTRIVIAL_CAP {
+            self.nontrivial.insert(hash_of(t));
+        } else {
+            *self.counters.entry("nontrivial_not_deduplicated_beyond_cap".into()).or_insert(0) += 1;
+        }
     }
     pub fn sample(&mut self, max: usize, v: impl FnOnce() -> Value) {
         if self.samples.len() < max {
@@ -128,7 +137,9 @@ impl Stats {
         self.evaluations += o.evaluations;
         self.states.extend(o.states);
         self.transitions.extend(o.transitions);
-        self.nontrivial.extend(o.nontrivial);
+        if self.nontrivial.len() < NONTRIVIAL_CAP * 16 {
+            self.nontrivial.extend(o.nontrivial);
+        }
         for (k, v) in o.outcomes {
             *self.outcomes.entry(k).or_insert(0) += v;
         }
